@@ -681,8 +681,9 @@ def legal_sems(plan, info, fs):
     s = [x for x in ("Default", "Immortal", "Los") if x in info["allocmap"]]
     if "NonMoving" in info["allocmap"]:
         if fs == "fs_imm_nonmoving" or (fs in ("fs_main", "fs_plain", "fs_small") and
-                                        plan in ("Immix", "NoGC", "SemiSpace", "MarkSweep", "PageProtect",
-                                                 "ConcurrentImmix")):   # generational plans: F-B
+                                        plan in ("Immix", "NoGC", "SemiSpace", "MarkSweep", "PageProtect")):
+            # generational plans: F-B; ConcurrentImmix: gc:concimmix-nonmoving-lost-in-marking (a NonMoving object
+            # allocated between the initial and the final pause of a concurrent cycle can be reclaimed while rooted)
             s.append("NonMoving")
     for x in ("Code", "ReadOnly", "LargeCode"):
         if x in info["allocmap"]:
@@ -738,6 +739,20 @@ class Gen:
         self.nf[i], self.sem[i] = nf, sem
         self.ops.append(f"alloc {m} {i} {nf} {self.size_to_payload(size, nf)} {align} {offset} {sem} {slot}")
         self.bytes += real
+        return i
+
+    def alloco(self, m, nf, size, sem, slot, opts=(0, 0, 0)):
+        """alloc_with_options (allow_overcommit, at_safepoint, allow_oom_call). The request may FAIL: the id must
+        not be used by a later op (only its root slot may be cleared)."""
+        real = max(32, (self.info["refoff"] + 24 + 8 * nf + self.size_to_payload(size, nf) + 7) // 8 * 8)
+        if sem == "Default" and real + 8 > self.info["maxnonlos"]:
+            sem = "Los"
+        if sem not in self.sems:
+            sem = "Default" if real + 8 <= self.info["maxnonlos"] else "Los"
+        i = self.next_id
+        self.next_id += 1
+        self.nf[i], self.sem[i] = nf, sem
+        self.ops.append(f"alloco {m} {i} {nf} {self.size_to_payload(size, nf)} 8 0 {sem} {slot} {opts[0]} {opts[1]} {opts[2]}")
         return i
 
     def writable(self, i):
@@ -846,7 +861,15 @@ def gen_mixed(rnd, plan, info, fs, heap, nops=300, workers=1):
             g.ops.append(f"bind {nm}"); muts.add(nm)
         elif u < 0.89 and len(muts) > 1:
             dm = max(muts)
+            # the mutator goes while it holds roots and a non-empty barrier buffer: old -> young stores through it first
+            for _ in range(r.choice([0, 1, 3])):
+                if old and pool:
+                    s = r.choice(old)
+                    if g.nf[s]:
+                        g.write(s, r.randrange(g.nf[s]), r.choice(pool[-10:]), dm)
             g.ops.append(f"destroy {dm}"); muts.discard(dm)
+            if r.random() < 0.6:
+                g.gc(0, False)
         elif u < 0.92 and pool and plan in IMMIX_FAMILY and info["pinning"]:
             x = r.choice(pool[-20:])
             if g.sem[x] == "Default":
@@ -1008,9 +1031,113 @@ def gen_immortal(rnd, plan, info, fs, heap, workers=1):
     return Program(plan, normalize(g.ops), heap=heap, workers=workers, fs=fs, tag="immortal")
 
 
-def gen_cycles(rnd, plan, info, fs, heap, cycles=12, workers=1, warm=3, slack=C09_SLACK):
+def gen_pressure(g, heap, slots=range(16, 48), small_slot=48):
+    """Full-heap phase of a cycle: requests made with alloc_with_options(at_safepoint=false) that FAIL.
+    Large-object fillers (not at a safepoint either: the last ones fail) keep the heap full of live data, then
+    small / medium / large requests fail one after the other; every failure requests a GC, which runs before the
+    next op. Nothing of a failed request may stay reserved: the fillers are dropped afterwards and the cycle's
+    `gc 0 1; stats` sample must be back on the floor."""
+    r = g.rnd
+    want, got = int(heap * r.choice([1.1, 1.3, 1.5])), 0
+    div = r.choice([8, 12, 16, 24])
+    for s in slots:
+        if got >= want:
+            break
+        size = heap // div + r.randrange(0, 8192) & ~7
+        got += size
+        g.alloco(0, 0, size, "Los", s, (0, 0, r.choice([0, 1])))
+    for _ in range(r.choice([4, 10, 24])):
+        u = r.random()
+        if u < 0.6:
+            size, sem = r.choice([32, 64, 256, 1024, 2048, 4096, 8000]), "Default"
+        elif u < 0.8:
+            size, sem = r.choice([16000, 30000, 70000, 262144]), "Default"          # -> Los above maxnonlos
+        else:
+            size, sem = heap // r.choice([2, 3, 5]), "Los"
+        g.alloco(0, r.choice([0, 1]), size, sem, small_slot, (0, 0, r.choice([0, 1])))
+    for s in list(slots) + [small_slot]:
+        g.root(0, s, None)
+
+
+def gen_destroy(rnd, plan, info, fs, heap, workers=1, rounds=10):
+    """C01: a mutator is destroyed while it still holds write-barrier state (generational mod-buffer / SATB buffer)
+    and roots. Per round: old objects (rooted by mutator 0 / VM roots; matured by a GC, or born mature: Immortal, Los)
+    — `bind m` — young objects allocated through m, rooted ONLY in m's slots — `write m <old> <f> <young>` (+ young ->
+    young chains, old -> old stores, null stores, all through m, fewer than a buffer-full) — `destroy m` (m's roots go,
+    the young objects are now reachable only through the old ones; the barrier buffers must reach the collector) —
+    nursery `gc 0 0`, `snap` — then a store into the same old object by mutator 0 (it must be remembered again),
+    nursery GC, snap; sometimes a full GC."""
+    g = Gen(rnd, plan, info, fs, heap)
+    r = rnd
+    g.anchor()
+    olds = []
+    nxt_m = 1
+    for rd in range(rounds):
+        # old objects (kept by mutator 0 / VM roots)
+        fresh_old = []
+        for _ in range(r.choice([1, 2, 4, 8])):
+            sem = r.choice(["Default", "Default", "Default", "Los", "Immortal"])
+            nf = r.choice([1, 2, 4, 8, 64])
+            size = r.choice([64, 256, 1024]) if sem != "Los" else r.choice([20000, 70000])
+            x = g.alloc(0, nf, max(size, 40 + 8 * nf), sem, slot=r.randrange(0, 16))
+            if x is None:
+                continue
+            if r.random() < 0.5:
+                g.ops.append(f"vmroot {r.randrange(0, 64)} {x}")
+            fresh_old.append(x)
+        if r.random() < 0.85:
+            g.gc(0, r.random() < 0.4)          # mature them (Immortal / Los ones are used either way)
+        olds = (olds + fresh_old)[-24:]
+        m = nxt_m
+        nxt_m = nxt_m % 3 + 1
+        g.ops.append(f"bind {m}")
+        youngs = []
+        for k in range(r.choice([1, 2, 5, 12, 40])):
+            nf = r.choice([0, 1, 2, 4])
+            y = g.alloc(m, nf, r.choice([32, 48, 64, 256, 2048]), "Default", slot=r.randrange(0, 48))
+            if y is None:
+                continue
+            src = r.choice(olds) if (not youngs or r.random() < 0.7) else r.choice(youngs)
+            if g.nf[src]:
+                g.write(src, r.randrange(g.nf[src]), y, m)
+            youngs.append(y)
+            u = r.random()
+            if u < 0.15 and len(olds) > 1:
+                a, b = r.choice(olds), r.choice(olds)
+                if g.nf[a]:
+                    g.write(a, r.randrange(g.nf[a]), b, m)
+            elif u < 0.25:
+                a = r.choice(olds)
+                if g.nf[a]:
+                    g.write(a, r.randrange(g.nf[a]), None, m)
+        if r.random() < 0.3:
+            g.ops.append(f"flush {m}")            # sometimes the buffers are already with the collector
+        if r.random() < 0.2:
+            for _ in range(r.choice([3, 30])):    # allocation by the other mutator in between
+                g.alloc(0, 0, r.choice([64, 4096, 8000]), "Default", slot=60)
+        g.ops.append(f"destroy {m}")
+        g.gc(0, False)
+        # the old objects must be remembered again when mutator 0 stores into them
+        if olds and r.random() < 0.7:
+            for _ in range(r.choice([1, 3])):
+                a = r.choice(olds)
+                y = g.alloc(0, 1, 64, "Default", slot=61)
+                if y is not None and g.nf[a]:
+                    g.write(a, r.randrange(g.nf[a]), y, 0)
+            g.root(0, 61, None)
+            g.gc(0, False)
+        if r.random() < 0.3:
+            g.gc(0, True)
+        if r.random() < 0.3:
+            for s_ in r.sample(range(0, 16), 6):
+                g.root(0, s_, None)
+    g.ops += ["snap", "gc 0 1", "snap", "stats"]
+    return Program(plan, normalize(g.ops), heap=heap, workers=workers, fs=fs, tag="destroy")
+
+
+def gen_cycles(rnd, plan, info, fs, heap, cycles=12, workers=1, warm=3, slack=C09_SLACK, pressure=True):
     """C09: N cycles `allocate ~40% of the heap (collectable semantics only); drop every root but the
-    anchor; gc exhaustive; stats`."""
+    anchor; [full-heap phase with failing non-safepoint requests: gen_pressure]; gc exhaustive; stats`."""
     g = Gen(rnd, plan, info, fs, heap)
     r = rnd
     g.anchor()
@@ -1046,6 +1173,11 @@ def gen_cycles(rnd, plan, info, fs, heap, cycles=12, workers=1, warm=3, slack=C0
             got += max(size, 32) if plan != "PageProtect" else (max(size, 32) + 4095) // 4096 * 4096
         for s in range(0, 16):
             g.root(0, s, None)
+        if pressure and (c % 2 == 1 or r.random() < 0.3):
+            gen_pressure(g, heap)
+            # a failed request has asked for a GC: on ConcurrentImmix a concurrent cycle may be in flight, the next
+            # user GC then only finishes it (what died after its snapshot is floating garbage until the GC after)
+            g.ops += ["gc 0 1"]
         g.ops += ["gc 0 1", "stats"]
     g.ops += ["snap"]
     return Program(plan, normalize(g.ops), heap=heap, workers=workers, fs=fs, tag="cycles",
@@ -1091,11 +1223,13 @@ def suite(name, seed, tier):
                         if w == 1:
                             mk = [lambda: gen_mixed(rnd, plan, info, fs, heap_for(plan, rnd), 300 if not thorough else 1200, w),
                                   lambda: gen_sizes(rnd, plan, info, fs, heap_for(plan, rnd), w),
-                                  lambda: gen_list(rnd, plan, info, fs, heap_for(plan, rnd, True), rnd.choice([1000, 2000]) if not thorough else rnd.choice([3000, 10000]), w)]
+                                  lambda: gen_list(rnd, plan, info, fs, heap_for(plan, rnd, True), rnd.choice([1000, 2000]) if not thorough else rnd.choice([3000, 10000]), w),
+                                  lambda: gen_destroy(rnd, plan, info, fs, heap_for(plan, rnd), w, 10 if not thorough else 40)]
                         else:
                             mk = [lambda: gen_mixed(rnd, plan, info, fs, heap_for(plan, rnd), 300 if not thorough else 1200, w),
                                   lambda: gen_churn(rnd, plan, info, fs, heap_for(plan, rnd, True), 1500 if not thorough else 6000, w),
-                                  lambda: gen_immortal(rnd, plan, info, fs, heap_for(plan, rnd), w)]
+                                  lambda: gen_immortal(rnd, plan, info, fs, heap_for(plan, rnd), w),
+                                  lambda: gen_destroy(rnd, plan, info, fs, heap_for(plan, rnd, True), w, 10 if not thorough else 40)]
                     elif name == "cycles":
                         if not info["collects"]:
                             continue
